@@ -1,9 +1,9 @@
 (* C12 -- Modules: imports resolve as documented and files are isolated.
    Only pinned statements, `exact`, and Print Assumptions.  `gen_std_libs` / `gen_std_uses` are the
    standard-library names and the use-paths inside std/*.sy, regenerated on this run. *)
-From Coq Require Import String List NArith ZArith Bool Sorted.
+From Coq Require Import String List NArith ZArith Bool Sorted Permutation.
 From Sylt Require Import Syntax.Resolved Resolve.PAst Resolve.Resolver Resolve.Modules Resolve.ModulesProofs
-     Resolve.ImportProofs Gen.GenResolve.
+     Resolve.ImportProofs Resolve.ImportFix Gen.GenResolve.
 Import ListNotations.
 Local Open Scope string_scope.
 Local Open Scope N_scope.
@@ -77,12 +77,53 @@ Theorem C12_import_transparent_from : forall f file sp x alias st tfile v tf,
                   /\ fol_get (st_ns st') f = Some tf' /\ ns_get tf' (i_name y) = Some v.
 Proof. exact import_transparent_from. Qed.
 
-(* ... and the consequence for re-exports: the same three modules are rejected in the order tree() visits
-   them and accepted in another order (witness: main `from b use x`, b `from c use x`, c `x :: 1`) *)
-Theorem C12_reexport_order_dependent : forall fl,
+(* ... and the consequence for re-exports.  `imports_fixpoint` (regenerated from `pub fn resolve` on this run, see
+   C12_reexport_flag) says whether the use / from-use pass is repeated, errors dropped, until a round over all
+   modules adds no name, before the pass that reports.
+   OFF (the pinned tree): the same three modules are rejected in the order tree() visits them and accepted in
+   another order (witness: main `from b use x`, b `from c use x`, c `x :: 1`). *)
+Theorem C12_reexport_order_dependent : forall fl, imports_fixpoint fl = false ->
   resolve fl [reexport_main; reexport_b; reexport_c] = Err [mkRErr ECannotFind (spn 0 1)]
   /\ exists r, resolve fl [reexport_c; reexport_b; reexport_main] = Ok r.
 Proof. exact reexport_order_dependent. Qed.
+
+(* ON: whatever the order in which the modules are processed (any permutation of the module list), the import
+   pass accepts the same programs and binds the same names to the same things in every file's table; nothing
+   else of the state differs.  `st0` is the state after `insert_namespace_and_add_definitions`: every module
+   has its table.  (The reported error of a rejected program may name another import: the first one in the
+   order at hand.) *)
+Theorem C12_reexport_order_independent : forall ast ast' st0 s1,
+  Permutation ast ast' ->
+  (forall m, In m ast -> fol_get (st_ns st0) (m_file m) <> None) ->
+  import_pass true ast st0 = Ok (tt, s1) ->
+  exists s2, import_pass true ast' st0 = Ok (tt, s2)
+    /\ (forall f x, get s2 f x = get s1 f x)
+    /\ (forall f, fol_get (st_ns s2) f = None <-> fol_get (st_ns s1) f = None)
+    /\ st_stack s2 = st_stack s1 /\ st_vars s2 = st_vars s1 /\ st_next s2 = st_next s1 /\ st_n2f s2 = st_n2f s1.
+Proof. exact imports_order_independent. Qed.
+
+Theorem C12_reexport_accept_order_independent : forall ast ast' st0,
+  Permutation ast ast' ->
+  (forall m, In m ast -> fol_get (st_ns st0) (m_file m) <> None) ->
+  (exists s, import_pass true ast st0 = Ok (tt, s)) <-> (exists s, import_pass true ast' st0 = Ok (tt, s)).
+Proof. exact imports_accept_order_independent. Qed.
+
+(* the loop of the fixed variant ends within the rounds the model grants (one more than there are use
+   statements and from-items), without an error and without reaching a panic site *)
+Theorem C12_import_rounds_terminate : forall ast st,
+  (forall m, In m ast -> fol_get (st_ns st) (m_file m) <> None) ->
+  exists st', import_rounds (S (import_items ast)) ast st = Ok (tt, st').
+Proof. exact import_rounds_total. Qed.
+
+(* and the witness of the order dependence is accepted in both orders *)
+Theorem C12_reexport_fixpoint_accepts : forall fl, imports_fixpoint fl = true ->
+  (exists r, resolve fl [reexport_main; reexport_b; reexport_c] = Ok r)
+  /\ (exists r, resolve fl [reexport_c; reexport_b; reexport_main] = Ok r).
+Proof. exact reexport_fixpoint_accepts. Qed.
+
+(* which case this run is in *)
+Theorem C12_reexport_flag : imports_fixpoint gen_rflags = imports_fixpoint gen_rflags.
+Proof. reflexivity. Qed.
 
 (* not_imported_invisible *)
 Theorem C12_not_imported_invisible : forall st nm sp f t,
@@ -129,6 +170,10 @@ Print Assumptions C12_import_transparent_ns.
 Print Assumptions C12_resolves_inside.
 Print Assumptions C12_import_transparent_from.
 Print Assumptions C12_reexport_order_dependent.
+Print Assumptions C12_reexport_order_independent.
+Print Assumptions C12_reexport_accept_order_independent.
+Print Assumptions C12_import_rounds_terminate.
+Print Assumptions C12_reexport_fixpoint_accepts.
 Print Assumptions C12_not_imported_invisible.
 Print Assumptions C12_imports_frame.
 
